@@ -121,7 +121,7 @@ def bounded(tier, seed):
 
 # ======================================================================================================= proved layer
 import z3
-from pyvc.values import Ref, Seq, Tup, SBool, SRef, SSeq, SSet, Set, Rec, CList, Loc, ExcVal, fresh_name, zbool, zint, Unsupported
+from pyvc.values import Ref, Seq, Tup, Map, SBool, SRef, SSeq, SSet, SMap, CDict, Set, Rec, CList, Loc, ExcVal, fresh_name, zbool, zint, Unsupported
 from pyvc.verify import Unit
 from pyvc.engine import LoopSpec
 from pyvc import builtins as B
@@ -291,12 +291,191 @@ class ApplicableActionsStep(Unit):
         st.oblige("applicability is asked in the given state only", z3.BoolVal(all(z3.eq(x[0], s) for x in st.ghost.get("asked", ()))))
 
 
+# --------------------------------------------------------------------------------------------------- apply_unsafe: the fold
+# apply_unsafe is where the per-effect kernel (_evaluate_effect, proved in C01) is folded over the action's effects.  Under contract here:
+# every expanded effect of every effect is handed to the kernel, always with the PRE-state, the expression manager of the problem and the SAME
+# two bookkeeping containers, and -- what the agreement with the full-check path of get_unsatisfied_conditions rests on -- the kernel always sees
+# every value reported so far (simulated-effect values first); make_child receives exactly those values on the pre-state; every state invariant is
+# evaluated on the NEW state, UPInvalidActionError exactly when one is false.
+import unified_planning as _up02
+from unified_planning.exceptions import (UPInvalidActionError as _Invalid02, UPConflictingEffectsException as _Conflict02)
+from unified_planning.exceptions import UPStateMissingFluentError as _Missing02
+FN02b, EFF02, GA02b, SIM02, SE02, PB02, ENV02b, MG02 = (Ref(n) for n in ("FNode02", "Effect02", "GroundedAction02", "SimulatedEffect02", "StateEvaluator02",
+                                                                        "Problem02", "Environment02", "ExpressionManager02"))
+UPS02 = Ref("UPState02", pycls=_up02.model.UPState)
+IA02 = Ref("InstantaneousAction02", pycls=_up02.model.InstantaneousAction)
+GA02b.null = z3.Const("GroundedAction02.None", GA02b.z3sort())
+SIM02.null = z3.Const("SimulatedEffect02.None", SIM02.z3sort())
+GA02b.fields.update({"simulated_effect": SIM02, "effects": Seq(EFF02)})
+SIM02.fields["fluents"] = Seq(FN02b)
+PB02.fields["environment"] = ENV02b
+ENV02b.fields["expression_manager"] = MG02
+EXPAND = lambda e_, st_, z: B.uf_value(e_, st_, "expand_effect", [z], [EFF02.z3sort()], Seq(EFF02))       # noqa: E731
+SIMVALS = lambda e_, st_, z, s_: B.uf_value(e_, st_, "simulated_values", [z, s_], [SIM02.z3sort(), UPS02.z3sort()], Seq(FN02b))   # noqa: E731
+INVOK = z3.Function("invariant_holds_in", FN02b.z3sort(), UPS02.z3sort(), z3.BoolSort())
+QNAU = "unified_planning.engines.sequential_simulator.UPSequentialSimulator.apply_unsafe"
+
+
+class ApplyUnsafe(Unit):
+    prop = "C02"
+    name = "UPSequentialSimulator.apply_unsafe"
+    doc = ("the fold of _evaluate_effect over all expanded effects: pre-state, same containers, the kernel sees every value reported so far; make_child "
+           "gets exactly the reported values on the pre-state; state invariants are evaluated on the new state; any numbers of effects / invariants")
+    allowed_raises = (_Invalid02, _Conflict02, _Missing02)
+
+    def target(self):
+        return _ss.UPSequentialSimulator.apply_unsafe
+
+    def configure(self, eng):
+        unit = self
+        S = _ss.UPSequentialSimulator
+        eng.contracts[S._get_action_and_parameters] = lambda e, st, a, k: iter([(st, (unit._act, unit._params))])
+
+        def ground(e, st, a, k):
+            yield st, unit._ga
+        eng.contracts[S._ground_action] = ground
+        SIM02.methods["function"] = lambda e, st, sv, a, k: iter([(st, SIMVALS(e, st, sv.z, a[1].z))])
+        EFF02.methods["expand_effect"] = lambda e, st, sv, a, k: iter([(st, EXPAND(e, st, sv.z))])
+
+        def G(st):
+            return eng.deref(st, st.getfield(unit._w, "_g_reported"))
+
+        def same_as_reported(e, st, d):
+            c = e.deref(st, d)
+            g = G(st)
+            if isinstance(c, (B.PendingEmpty, CDict)) and not getattr(c, "items", None):
+                k_ = FN02b.fresh("k")
+                return z3.ForAll([k_.z], z3.Not(z3.Select(g.has, k_.z)))
+            return c.same(g).z if isinstance(c, SMap) else z3.BoolVal(False)
+
+        def evaluate_effect(e, st, a, k):
+            eff, state, uv, af, em = a[1], a[2], a[3], a[4], a[5]
+            st.oblige("the kernel evaluates in the PRE-state", state.z == unit._state.z if isinstance(state, SRef) else z3.BoolVal(False))
+            own_uv, own_af = st.frame.vars.get("updated_values"), st.frame.vars.get("assigned_fluent")
+            st.oblige("the kernel is given the function's own bookkeeping containers (the objects make_child / the next call will see), not copies",
+                      z3.BoolVal(isinstance(uv, Loc) and isinstance(af, Loc) and isinstance(own_uv, Loc) and isinstance(own_af, Loc)
+                                 and uv.id == own_uv.id and af.id == own_af.id))
+            st.oblige("the kernel is given the problem's expression manager", em.z == unit._em if isinstance(em, SRef) else z3.BoolVal(False))
+            st.oblige("the kernel sees every value reported so far (nothing dropped, nothing else written)", same_as_reported(e, st, uv))
+            h = e.deref(st, st.getfield(unit._w, "_g_handed"))
+            kk = EFF02.fresh("k")
+            st.setfield(unit._w, "_g_handed", st.alloc(SSet(EFF02, z3.Lambda([kk.z], z3.Or(z3.Select(h.has, kk.z), kk.z == eff.z))), "set"))
+            # the kernel may extend assigned_fluent
+            afc = e.deref(st, af)
+            grown = e.fresh_of(st, Set(FN02b), "assigned_after")
+            if isinstance(afc, SSet):
+                x = FN02b.fresh("x")
+                st.assume(z3.ForAll([x.z], z3.Implies(z3.Select(afc.has, x.z), z3.Select(grown.has, x.z))))
+            st.store(af, grown)
+            s2 = st.fork()
+            yield s2.note("kernel:raise"), ExcVal(_Conflict02, (), "_evaluate_effect")
+            s3 = st.fork()
+            yield s3.note("kernel:nothing"), (None, None)
+            f, v = FN02b.fresh("reported_fluent"), FN02b.fresh("reported_value")
+            g = G(st)
+            st.setfield(unit._w, "_g_reported", st.alloc(SMap(FN02b, FN02b, z3.Store(g.has, f.z, True), z3.Store(g.val, f.z, v.z)), "dict"))
+            yield st.note("kernel:report"), (f, v)
+        eng.contracts[S._evaluate_effect] = evaluate_effect
+
+        def make_child(e, st, sv, a, k):
+            st.oblige("make_child is applied to the pre-state", sv.z == unit._state.z)
+            st.oblige("make_child receives exactly the reported values", same_as_reported(e, st, a[0]))
+            st.oblige("every expanded effect of every effect was handed to the kernel", unit._all_handed(e, st, unit._effs.n))
+            st.ghost["child_made"] = st.ghost.get("child_made", 0) + 1
+            yield st, unit._new
+        UPS02.methods["make_child"] = make_child
+
+        def evaluate(e, st, sv, a, k):
+            st.oblige("state invariants are evaluated on the NEW state", a[1].z == unit._new.z if isinstance(a[1], SRef) else z3.BoolVal(False))
+            r = Ref("BoolConstant02").fresh("value")
+            st.assume(B._uf("BoolConstant02.bool_constant_value()", Ref("BoolConstant02").z3sort(), z3.BoolSort())(r.z) == INVOK(a[0].z, unit._new.z))
+            yield st, r
+        SE02.methods["evaluate"] = evaluate
+        Ref("BoolConstant02").observers["bool_constant_value"] = ((), B.Bool)
+
+        def uvmap(L):
+            c = L.updated_values
+            return c
+
+        def sim_inv(L):
+            i = zint(L._i)
+            g = L.field(unit._w, "_g_reported")
+            j = z3.Int(fresh_name("j"))
+            return [("no kernel call yet: the reported values are the simulated ones stored so far", z3.BoolVal(True))]
+
+        def handed_upto(L, i, jj=None):
+            return unit._all_handed(L._eng, L.st, i, jj)
+
+        def o_inv(L):
+            c = L.updated_values
+            return [("updated_values holds exactly the values reported so far", unit._same(L._eng, L.st, c, L.field(unit._w, "_g_reported"))),
+                    ("the expansions of the effects handled so far were all handed to the kernel", handed_upto(L, zint(L._i)))]
+
+        def i_inv(L):
+            c = L.updated_values
+            return [("updated_values holds exactly the values reported so far", unit._same(L._eng, L.st, c, L.field(unit._w, "_g_reported"))),
+                    ("... and the expansions of the current effect handled so far", handed_upto(L, zint(L._loop1_i), zint(L._i)))]
+
+        def v_inv(L):
+            j = z3.Int(fresh_name("j"))
+            return [("every invariant checked so far holds in the new state",
+                     z3.ForAll([j], z3.Implies(z3.And(0 <= j, j < zint(L._i)), INVOK(z3.Select(unit._invs.arr, j), unit._new.z))))]
+        tys = {"updated_values": Map(FN02b, FN02b), "assigned_fluent": Set(FN02b), "e": EFF02, "effect": EFF02, "fluent": FN02b, "value": FN02b, "f": FN02b, "v": FN02b,
+               "si": FN02b, "self._g_reported": Map(FN02b, FN02b), "self._g_handed": Set(EFF02)}
+        eng.loops[(QNAU, 1)] = LoopSpec(o_inv, modifies=["updated_values", "assigned_fluent", "e", "effect", "fluent", "value", "self._g_reported", "self._g_handed"], types=tys)
+        eng.loops[(QNAU, 2)] = LoopSpec(i_inv, modifies=["updated_values", "assigned_fluent", "effect", "fluent", "value", "self._g_reported", "self._g_handed"], types=tys)
+        eng.loops[(QNAU, 3)] = LoopSpec(v_inv, modifies=["si"], types=tys)
+
+    def _same(self, eng, st, c, g):
+        if isinstance(c, SMap):
+            return c.same(g).z
+        k_ = FN02b.fresh("k")
+        return z3.ForAll([k_.z], z3.Not(z3.Select(g.has, k_.z)))
+
+    def _all_handed(self, eng, st, upto, part=None):
+        h = eng.deref(st, st.getfield(self._w, "_g_handed"))
+        i, j = z3.Int(fresh_name("i")), z3.Int(fresh_name("j"))
+        ex_i = EXPAND(eng, st, z3.Select(self._effs.arr, i))
+        full = z3.ForAll([i, j], z3.Implies(z3.And(0 <= i, i < upto, 0 <= j, j < ex_i.n), z3.Select(h.has, z3.Select(ex_i.arr, j))))
+        if part is None:
+            return full
+        ex_a = EXPAND(eng, st, z3.Select(self._effs.arr, upto))
+        return z3.And(full, z3.ForAll([j], z3.Implies(z3.And(0 <= j, j < part), z3.Select(h.has, z3.Select(ex_a.arr, j)))))
+
+    def setup(self, eng, st):
+        self._state, self._act, self._params = UPS02.fresh("state"), IA02.fresh("action"), Params02.fresh("parameters")
+        self._ga, self._new = GA02b.fresh("grounded_action"), UPS02.fresh("new_state")
+        pb = PB02.fresh("problem")
+        self._em = B._uf("Environment02.expression_manager", ENV02b.z3sort(), MG02.z3sort())(B._uf("Problem02.environment", PB02.z3sort(), ENV02b.z3sort())(pb.z))
+        self._effs = B.field_uf(eng, st, self._ga, "effects")
+        self._invs = eng.fresh_of(st, Seq(FN02b), "state_invariants")
+        st.assume(B._uf("GroundedAction02.simulated_effect", GA02b.z3sort(), SIM02.z3sort())(self._ga.z) == SIM02.null)    # simulated effects: see the unit's note
+        empty_map = SMap(FN02b, FN02b, z3.K(FN02b.z3sort(), z3.BoolVal(False)), z3.K(FN02b.z3sort(), FN02b.fresh("dflt").z))
+        empty_set = SSet(EFF02, z3.K(EFF02.z3sort(), z3.BoolVal(False)))
+        self._w = st.alloc(Rec(_ss.UPSequentialSimulator, {"_problem": pb, "_state_invariants": st.alloc(self._invs, "list"), "_se": SE02.fresh("se"),
+                                                            "_g_reported": st.alloc(empty_map, "dict"), "_g_handed": st.alloc(empty_set, "set")}), "simulator")
+        return [self._w, self._state, self._act, self._params], {}, {}
+
+    def post(self, eng, ctx, st, out):
+        j = z3.Int(fresh_name("j"))
+        allok = z3.ForAll([j], z3.Implies(z3.And(0 <= j, j < self._invs.n), INVOK(z3.Select(self._invs.arr, j), self._new.z)))
+        if out[0] == "raise":
+            if out[1].cls is _Invalid02:
+                st.oblige("UPInvalidActionError only when the action cannot be grounded or some state invariant is false in the new state",
+                          z3.Or(self._ga.z == GA02b.null, z3.And(z3.BoolVal(st.ghost.get("child_made", 0) == 1), z3.Not(allok))))
+            return
+        st.oblige("the new state is returned, made exactly once", z3.And(z3.BoolVal(st.ghost.get("child_made", 0) == 1), out[1].z == self._new.z if isinstance(out[1], SRef) else z3.BoolVal(False)))
+        st.oblige("every state invariant holds in the returned state", allok)
+
+
 UNITS = [Wrapper("_is_applicable", "exception mapping and verdict of the applicability query"),
          Wrapper("_apply", "None iff not applicable or a documented error; otherwise apply_unsafe's state"),
          Wrapper("_is_goal", "goal test = empty list of unsatisfied goals; the documented error counts as not a goal"),
-         ApplicableActionsStep()]
+         ApplicableActionsStep(), ApplyUnsafe()]
 LEVEL = "other"
 EXPLANATION = __doc__
-TRUSTED = ["get_unsatisfied_conditions / apply_unsafe / get_unsatisfied_goals are used by contract (return, or raise one of their documented exception classes); "
+TRUSTED = ["apply_unsafe unit: the kernel _evaluate_effect by contract (may raise, report nothing, or report one (fluent, value); may extend assigned_fluent); "
+           "actions WITHOUT a simulated effect (the simulated-effect prologue is outside the unit); expand_effect, make_child and StateEvaluator.evaluate opaque",
+           "get_unsatisfied_conditions / apply_unsafe / get_unsatisfied_goals are used by contract (return, or raise one of their documented exception classes); "
            "that the full check agrees with apply_unsafe is decided by the bounded layer (both share _evaluate_effect, proved in C01)",
            "_get_applicable_actions: verified on a list of two symbolic grounded instances (the loop body is iteration-independent); labelled bounded"]
